@@ -4,6 +4,7 @@ import (
 	"bytes"
 	"fmt"
 	"strings"
+	"sync/atomic"
 	"time"
 
 	"go.amzn.com/verifharness/vh"
@@ -22,9 +23,13 @@ type c05Desc struct {
 	Ignores bool   `json:"ignores_term_and_shutdown"`
 	Delta   int    `json:"delta_ms,omitempty"`  // sweep: response at T+delta
 	Hook    string `json:"hook,omitempty"`      // hook schedule name
+	Rounds  []string `json:"rounds,omitempty"`  // repeat: per-invocation directive ("ok" or "<who>:<stall phase>")
 }
 
 func (d c05Desc) id() string {
+	if d.Kind == "repeat" {
+		return fmt.Sprintf("C05/repeat/n%d/T%d/ign%v/%s", d.NExt, d.T, d.Ignores, strings.Join(d.Rounds, "+"))
+	}
 	return fmt.Sprintf("C05/%s/%s/%s/n%d/T%d/ign%v/d%d/%s", d.Kind, d.Who, d.Phase, d.NExt, d.T, d.Ignores, d.Delta, d.Hook)
 }
 
@@ -39,7 +44,11 @@ func genC05(tier string, seed int64) []Case {
 			return
 		}
 		seen[d.id()] = true
-		cases = append(cases, Case{ID: d.id(), Class: d.Kind + "/" + d.Phase + d.Hook, Desc: d, Timeout: 60 * time.Second, Run: func(c *Ctx) { runC05(c, d) }})
+		run := func(c *Ctx) { runC05(c, d) }
+		if d.Kind == "repeat" {
+			run = func(c *Ctx) { runC05Repeat(c, d) }
+		}
+		cases = append(cases, Case{ID: d.id(), Class: d.Kind + "/" + d.Phase + d.Hook, Desc: d, Timeout: 90 * time.Second, Run: run})
 	}
 	Ts := []int64{150, 300}
 	for nExt := 0; nExt <= 2; nExt++ {
@@ -75,7 +84,36 @@ func genC05(tier string, seed int64) []Case {
 			add(c05Desc{Kind: "hook", Who: "rt", Phase: "", NExt: nExt, T: 300, Hook: hk})
 		}
 	}
+	// several expiries on ONE instance: every timeout must be answered, torn down and
+	// followed by a fresh environment, not only the first one of a process lifetime
+	add(c05Desc{Kind: "repeat", NExt: 0, T: 150, Rounds: []string{"rt:afterNextNoResponse", "ok", "rt:afterNextNoResponse", "ok"}})
+	add(c05Desc{Kind: "repeat", NExt: 1, T: 150, Rounds: []string{"rt:afterNextNoResponse", "rt:beforeFirstNext", "ok", "e0:afterEvent", "ok"}})
+	add(c05Desc{Kind: "repeat", NExt: 1, T: 150, Rounds: []string{"ok", "e0:afterEvent", "e0:registeredNeverNext", "rt:afterResponseNoNext", "ok"}})
+	add(c05Desc{Kind: "repeat", NExt: 2, T: 150, Ignores: true, Rounds: []string{"e1:registeredNeverNext", "ok", "rt:afterResponseNoNext", "ok", "e0:afterEvent", "ok"}})
 	if tier == "thorough" {
+		r := rng(seed, "C05/repeat")
+		for i := 0; i < 40; i++ {
+			nExt := r.Intn(3)
+			var rounds []string
+			fresh := true // a new generation starts in this round
+			for k := 0; k < 4+r.Intn(4); k++ {
+				opts := []string{"ok", "ok", "rt:afterNextNoResponse", "rt:afterResponseNoNext"}
+				if fresh {
+					opts = append(opts, "rt:beforeFirstNext")
+				}
+				for e := 0; e < nExt; e++ {
+					opts = append(opts, fmt.Sprintf("e%d:afterEvent", e))
+					if fresh {
+						opts = append(opts, fmt.Sprintf("e%d:registeredNeverNext", e), fmt.Sprintf("e%d:beforeRegister", e))
+					}
+				}
+				o := opts[r.Intn(len(opts))]
+				rounds = append(rounds, o)
+				fresh = o != "ok"
+			}
+			rounds = append(rounds, "ok")
+			add(c05Desc{Kind: "repeat", NExt: nExt, T: []int64{120, 200}[r.Intn(2)], Ignores: r.Intn(3) == 0, Rounds: rounds})
+		}
 		for rep := 0; rep < 6; rep++ {
 			for delta := -6; delta <= 6; delta++ {
 				add(c05Desc{Kind: "sweep", Who: "rt", Phase: fmt.Sprintf("respondAtDelta-rep%d", rep), NExt: rep % 3, T: 150, Delta: delta})
@@ -348,5 +386,155 @@ func runC05(c *Ctx, d c05Desc) {
 	c.SetInterleaving(d.Hook + fmt.Sprint(d.Delta) + outcome)
 	if c.WantSample || c.Violated() {
 		c.SetSample(sampleLog(w, 220))
+	}
+}
+
+// runC05Repeat drives several invocations through ONE emulator instance; the
+// behaviour of every party in round i is given by d.Rounds[i] ("ok" or
+// "<who>:<phase>" = that party stalls in that phase). Every stalled round is
+// held to the same clauses as a single stall.
+func runC05Repeat(c *Ctx, d c05Desc) {
+	exts := []string{}
+	for i := 0; i < d.NExt; i++ {
+		exts = append(exts, fmt.Sprintf("ext%d", i))
+	}
+	w, err := NewWorld(vh.Config{TimeoutMs: d.T, Extensions: exts})
+	if err != nil {
+		c.Inconclusive("harness: " + err.Error())
+		return
+	}
+	defer w.Close()
+	T := time.Duration(d.T) * time.Millisecond
+	respBody := func(ev []byte) []byte { return append([]byte("RESP:"), ev...) }
+	var directive atomic.Value
+	directive.Store("ok")
+	dir := func() string { return directive.Load().(string) }
+
+	w.RtPlan = func(gen int, p *vh.Proc) vh.ExecPlan {
+		o := RtOpts{IgnoreTerm: d.Ignores}
+		o.BeforeFirstNext = func(p *vh.Proc, pt *vh.Party) *vh.Exit {
+			if dir() == "rt:beforeFirstNext" {
+				return Stall(p)
+			}
+			return nil
+		}
+		o.Handle = func(p *vh.Proc, pt *vh.Party, n int, ev *vh.Resp) *vh.Exit {
+			switch dir() {
+			case "rt:afterNextNoResponse":
+				return Stall(p)
+			case "rt:afterResponseNoNext":
+				pt.Respond(ev.ReqID(), respBody(ev.Body), nil)
+				return Stall(p)
+			}
+			pt.Respond(ev.ReqID(), respBody(ev.Body), nil)
+			return nil
+		}
+		return vh.ExecPlan{Behave: w.RtLoop(o)}
+	}
+	w.ExtPlan = func(base string, gen int, p *vh.Proc) vh.ExecPlan {
+		who := "e" + strings.TrimPrefix(base, "ext")
+		o := ExtOpts{Events: []string{"INVOKE", "SHUTDOWN"}, IgnoreTerm: d.Ignores, IgnoreShutdown: d.Ignores}
+		o.BeforeRegister = func(p *vh.Proc, pt *vh.Party) *vh.Exit {
+			if dir() == who+":beforeRegister" {
+				return Stall(p)
+			}
+			return nil
+		}
+		o.AfterRegister = func(p *vh.Proc, pt *vh.Party, reg *vh.Resp) *vh.Exit {
+			if dir() == who+":registeredNeverNext" {
+				return Stall(p)
+			}
+			return nil
+		}
+		o.OnEvent = func(p *vh.Proc, pt *vh.Party, n int, ev *vh.Resp) *vh.Exit {
+			if parseExtEvent(ev.Body).EventType == "INVOKE" && dir() == who+":afterEvent" {
+				return Stall(p)
+			}
+			return nil
+		}
+		return vh.ExecPlan{Behave: w.ExtLoop(o)}
+	}
+
+	directive.Store(d.Rounds[0])
+	w.E.Init()
+	bound := T + 2*time.Second + 1500*time.Millisecond
+	lastStallRet := int64(0)
+	seenStall := map[string]int{}
+	for i, r := range d.Rounds {
+		directive.Store(r)
+		payload := []byte(fmt.Sprintf("event-%d", i))
+		inv := w.E.InvokeAsync(payload, vh.InvokeOpts{})
+		cls := "repeat/" + r
+		if r != "ok" {
+			seenStall[r]++
+			if seenStall[r] > 1 || len(seenStall) > 1 {
+				cls += "/later"
+			}
+		} else if lastStallRet != 0 {
+			cls += "/after-stall"
+		}
+		if !inv.Wait(bound + 10*time.Second) {
+			c.Check(false, "bounded_answer", "C05/hang/"+cls, fmt.Sprintf("round %d (%s) of %v was never answered", i, r, d.Rounds), nil)
+			c.SetSample(sampleLog(w, 220))
+			return
+		}
+		outcome := vh.ErrName(inv.Err)
+		took := inv.RetT.Sub(inv.CallT)
+		evs := w.E.Log.Snapshot()
+		if r == "ok" {
+			ok := inv.Err == nil && bytes.Equal(inv.W.Body(), respBody(payload))
+			if !c.Check(ok, "next_healthy", "C05/next-fails/"+cls, fmt.Sprintf("round %d (healthy) of %v ended %q with body %s", i, d.Rounds, outcome, trunc(inv.W.Body())), nil) {
+				break
+			}
+			if lastStallRet != 0 {
+				id := ""
+				for _, e := range evs {
+					if e.Src == "events" && e.Op == "SetCurrentRequestID" && e.Seq > inv.CallSeq && e.Seq < inv.RetSeq {
+						id = e.ID
+					}
+				}
+				for name, pt := range w.AllParties() {
+					for _, h := range pt.History() {
+						if h.Op == "next" && h.Resp != nil && h.Resp.Status == 200 && h.Resp.ReqID() == id && id != "" {
+							for _, p := range w.E.Sup.Procs() {
+								if p.Name == name {
+									c.Check(p.ExecSeq > lastStallRet, "fresh_processes", "C05/stale-process/"+cls, "the invocation after a timeout was served by a process of the timed-out environment", name)
+								}
+							}
+						}
+					}
+				}
+			}
+			continue
+		}
+		c.Check(outcome == "timeout", "timeout_outcome", "C05/outcome/"+cls+"/"+outcome, fmt.Sprintf("round %d (%s) of %v ended %q instead of the timeout outcome", i, r, d.Rounds, outcome), nil)
+		c.Check(took >= T-5*time.Millisecond, "not_before_timeout", "C05/early-timeout/"+cls, fmt.Sprintf("answered after %.0f ms, before the %d ms timeout", float64(took)/1e6, d.T), nil)
+		c.Check(took <= bound, "bounded_answer", "C05/late-answer/"+cls, fmt.Sprintf("answered after %.0f ms, bound is %d+2000+1500 ms", float64(took)/1e6, d.T), nil)
+		c.Check(inv.W.LateWrites() == 0, "no_late_write", "C05/late-write/"+cls, "reply stream written after the invocation returned", nil)
+		if outcome == "timeout" || outcome == "invokefail" {
+			for _, p := range w.E.Sup.Procs() {
+				if p.ExecSeq == 0 || p.ExecSeq > inv.RetSeq {
+					continue
+				}
+				reaped := false
+				for _, e := range evs {
+					if e.Src == "sup" && e.Kind == "exit" && e.Op == p.Name && e.Seq < inv.RetSeq {
+						reaped = true
+					}
+				}
+				c.Check(reaped, "reaped_before_answer", "C05/not-reaped/"+p.Role+"/"+cls, fmt.Sprintf("%s still running when round %d's timeout was answered", p.Name, i), nil)
+			}
+		}
+		c.Counter("repeat_stall_rounds", 1)
+		lastStallRet = inv.RetSeq
+	}
+	lifecycleOracle(c, w)
+	if staleRequestLeak(w) {
+		c.Taint("stale-inflight-request")
+	}
+	c.SetTrace(d.id()+NormTrace(w.E.Log.Snapshot(), func(e vh.Event) bool { return e.Src == "sup" }), true)
+	c.SetInterleaving("repeat/" + strings.Join(d.Rounds, "+"))
+	if c.WantSample || c.Violated() {
+		c.SetSample(sampleLog(w, 260))
 	}
 }
